@@ -1,7 +1,7 @@
 (* C05 - parameters are decoded as the inverse of OpenAPI style serialisation. *)
 From KV Require Import Model.Base Model.Json Model.Schema Model.Request Model.Lookup Model.ParamCodec
      Spec.ParamSpec Proofs.C05Proofs Proofs.C05Object.
-From KV Require Import Model.DeepObject Proofs.DeepProofs.
+From KV Require Import Model.DeepObject Spec.DeepSpec Proofs.DeepProofs Proofs.DeepBuild.
 Local Open Scope list_scope.
 
 (* strings.Split inverts strings.Join for any separator and any non-empty list of elements that
@@ -139,6 +139,20 @@ Theorem C05_deep_set_other_key : forall k ks m v k' ks', k' <> k ->
   deep_get (deep_set m (k :: ks) v) (k' :: ks') = deep_get m (k' :: ks').
 Proof. exact deep_set_other_key. Qed.
 Print Assumptions C05_deep_set_get.
+(* buildResObj on the parameter tree of a value returns the value read at the declared types: for
+   every schema tree of objects (declared properties with non-empty names), arrays and primitives of
+   any depth, every value of it (Spec/DeepSpec.reading: primitives that parse to a non-nil value,
+   arrays with at least one element, objects with any subset of the declared members), wherever in
+   the parameter tree the value sits - given that strconv.Atoi inverts strconv.Itoa *)
+Theorem C05_deep_build_reads_value :
+  forall parse_int64 parse_int32 parse_float atoi,
+  (forall n, atoi (itoa n) = Some (Z.of_nat n)) ->
+  forall s, names_ok s = true -> forall v p root mk key,
+    deep_get root (child_path mk key) = Some (tree_of v) ->
+    reading parse_int64 parse_int32 parse_float s v = Some p ->
+    build parse_int64 parse_int32 parse_float atoi root s mk key = BOk p.
+Proof. exact build_reading. Qed.
+Print Assumptions C05_deep_build_reads_value.
 (* a test, not a theorem: one nested value (object in object, array of objects) through the model *)
 Example C05_deep_example :
   let i := DSPrim (prim_core (Some ["integer"]) "") in
